@@ -43,6 +43,9 @@ fn main() {
     if args[1] == "c09-child-scripted" {
         std::process::exit(c09::child_scripted_main(args[2].as_str()));
     }
+    if args[1] == "replay" {
+        std::process::exit(report::replay_file(args[2].as_str()));
+    }
     let tier = args[2].as_str();
     let code = match args[1].as_str() {
         "C01" => bookprops::c01(tier),
